@@ -394,11 +394,139 @@ Proof.
   - apply fleetmove_fold_k. auto.
 Qed.
 
+Lemma check_state_k w n : KI w -> KI (check_state w n).
+Proof. intros H. unfold check_state. destruct (count_threads _). kgo3. Qed.
+#[local] Hint Resolve check_state_k : kdb.
+
+Lemma sc_request_k w p n pc : KI w -> KI (fst (sc_request w p n pc)).
+Proof.
+  intros H. unfold sc_request.
+  destruct (res_request (wk w) n (nres (get_node w n))) as [[[k r] q]|] eqn:E; cbn [fst].
+  - apply setpc_k, upd_proc_k, upd_node_k. unfold KI; cbn [wk set]; simpl. eapply res_request_kinv; eauto.
+  - auto with kdb.
+Qed.
+Lemma sc_release_k w p n : KI w -> KI (fst (sc_release w p n)).
+Proof.
+  intros H. unfold sc_release.
+  destruct (res_release (wk w) n (nres (get_node w n)) (ptk (me w p))) as [[[k r] g]|] eqn:E; cbn [fst].
+  - apply setpc_k, upd_node_k. unfold KI; cbn [wk set]; simpl. eapply res_release_kinv; eauto.
+  - auto with kdb.
+Qed.
+#[local] Hint Resolve sc_request_k sc_release_k : kdb.
+
+Lemma sc_dispatch_k w p n c ph : KI w -> KI (fst (sc_dispatch w p n c ph)).
+Proof. intros H. unfold sc_dispatch. kgo3. Qed.
+#[local] Hint Resolve sc_dispatch_k : kdb.
+
+Lemma sc_next_k w p n : KI w -> KI (fst (sc_next w p n)).
+Proof. intros H. unfold sc_next. kgo3. Qed.
+#[local] Hint Resolve sc_next_k : kdb.
+
+Lemma sc_worker_cont_k w p n : KI w -> KI (fst (sc_worker_cont w p n)).
+Proof. intros H. unfold sc_worker_cont. kgo3. Qed.
+#[local] Hint Resolve sc_worker_cont_k : kdb.
+
+Lemma sc_run_k f : forall w p n r, KI (fst r) -> KI (fst (sc_run f w p n r)).
+Proof.
+  induction f as [|f IH]; simpl; intros w p n r H; auto with kdb.
+  destruct r as [w1 y]. cbn [fst] in *. destruct (wcrash w1); auto.
+  destruct (Nat.eqb _ 8); auto. apply IH. auto with kdb.
+Qed.
+
+Lemma splitworker_block_k w p : KI w -> KI (fst (splitworker_block w p)).
+Proof.
+  intros H. unfold splitworker_block. cbv zeta. destruct (ppc (me w p)) as [|[|?]].
+  - kgo3.
+  - match goal with |- context [if ?b then _ else _] => destruct b end; cbn [fst]; auto with kdb.
+    apply sc_run_k. auto 12 with kdb.
+  - apply sc_run_k. auto with kdb.
+Qed.
+
+Lemma combworker_block_k w p : KI w -> KI (fst (combworker_block w p)).
+Proof.
+  intros H. unfold combworker_block. cbv zeta. destruct (ppc (me w p)); apply sc_run_k; auto with kdb.
+Qed.
+
+Lemma splitter_head_k w p n : KI w -> KI (fst (splitter_head w p n)).
+Proof. intros H. unfold splitter_head. kgo3. Qed.
+#[local] Hint Resolve splitter_head_k : kdb.
+
+Lemma splitter_start_k w p n pal : KI w -> KI (fst (splitter_start w p n pal)).
+Proof. intros H. unfold splitter_start. kgo3. Qed.
+#[local] Hint Resolve splitter_start_k : kdb.
+
+Lemma splitter_block_k w p : KI w -> KI (fst (splitter_block w p)).
+Proof. intros H. unfold splitter_block. kgo3. Qed.
+
+Lemma combiner_head_k w p n : KI w -> KI (fst (combiner_head w p n)).
+Proof. intros H. unfold combiner_head. kgo3. Qed.
+#[local] Hint Resolve combiner_head_k : kdb.
+
+Lemma combiner_rep_k e p k0 j : forall a, KI (fst (fst a)) ->
+  KI (fst (fst ((fix rep (j : nat) (a : world * list nat * list nat) :=
+                   match j with
+                   | O => a
+                   | S j' => let '(w0, ts, ix) := a in
+                             let '(w1, t) := e_reserve_get w0 e p in rep j' (w1, ts ++ [t], ix ++ [k0])
+                   end) j a))).
+Proof.
+  induction j as [|j IH]; intros [[w0 ts] ix] H; cbn [fst] in *; auto.
+  destruct (e_reserve_get w0 e p) as [w1 t] eqn:E. apply IH. cbn [fst]. eapply e_reserve_get_k; eauto.
+Qed.
+
+Lemma combiner_reserve_k w p n w1 a b : combiner_reserve w p n = Some (w1, a, b) -> KI w -> KI w1.
+Proof.
+  unfold combiner_reserve. intros E H.
+  assert (forall es k acc r, KI (fst (fst acc)) ->
+    (fix go (k : nat) (es : list nat) (acc : world * list nat * list nat) : option (world * list nat * list nat) :=
+       match es with
+       | [] => Some acc
+       | e :: rest =>
+           match nth_error (nrecipe (get_node w n)) k with
+           | None => None
+           | Some q =>
+               let acc' := (fix rep (j : nat) (a : world * list nat * list nat) :=
+                              match j with
+                              | O => a
+                              | S j' => let '(w0, ts, ix) := a in
+                                        let '(w1, t) := e_reserve_get w0 e p in rep j' (w1, ts ++ [t], ix ++ [k])
+                              end) q acc in
+               go (S k) rest acc'
+           end
+       end) k es acc = Some r -> KI (fst (fst r))) as G.
+  { induction es as [|e es IH]; intros k acc r HA EQ.
+    - inversion EQ; subst; auto.
+    - destruct (nth_error _ k) as [q|]; [|discriminate]. eapply IH; [|exact EQ]. apply combiner_rep_k. exact HA. }
+  assert (KI (fst (fst (w1, a, b)))) as K by (eapply G; [|exact E]; cbn [fst]; exact H). exact K.
+Qed.
+
+Lemma combiner_loop_k w p n : KI w -> KI (fst (combiner_loop w p n)).
+Proof. intros H. unfold combiner_loop. kgo3. Qed.
+#[local] Hint Resolve combiner_loop_k : kdb.
+
+Lemma combiner_block_k w p : KI w -> KI (fst (combiner_block w p)).
+Proof.
+  intros H. unfold combiner_block. cbv zeta.
+  destruct (ppc (me w p)) as [|[|[|[|[|[|?]]]]]].
+  - kgo3.
+  - auto with kdb.
+  - destruct (e_get _ _ _ _ _) as [w1 it] eqn:E. assert (KI w1) by (eapply e_get_k; eauto).
+    destruct it; cbn [fst]; auto. destruct (negb _); cbn [fst]; auto with kdb.
+    destruct (combiner_reserve w1 p (pown (me w p))) as [[[w2 a] b]|] eqn:E2; cbn [fst]; auto with kdb.
+    assert (KI w2) by (eapply combiner_reserve_k; eauto).
+    destruct (w_any_of w2 a) as [w3 c] eqn:E3. cbn [fst]. apply setpc_k, upd_proc_k. eapply w_any_of_k; eauto.
+  - auto with kdb.
+  - kgo3.
+  - kgo3.
+  - kgo3.
+Qed.
+
 Lemma block_k w p : KI w -> KI (fst (block w p)).
 Proof.
   intros H. unfold block. destruct (pkd (me w p)); cbn [fst]; auto with kdb;
     first [apply source_block_k | apply machine_block_k | apply worker_block_k | apply sink_block_k | apply push_block_k
-          | apply buftimer_block_k | apply fleetact_block_k | apply fleetmove_block_k]; auto.
+          | apply buftimer_block_k | apply fleetact_block_k | apply fleetmove_block_k | apply splitter_block_k
+          | apply splitworker_block_k | apply combiner_block_k | apply combworker_block_k]; auto.
 Qed.
 
 Lemma resume_k f : forall w p, KI w -> KI (resume f w p).
